@@ -308,11 +308,11 @@ Lemma dead_after_cons d (e : event) r : dead_after d (e :: r) = dead_after (dead
 Proof. reflexivity. Qed.
 
 Lemma dead_after_true (evs : list event) : dead_after true evs = true.
-Proof. induction evs as [|e r IH]; auto. rewrite dead_after_cons. destruct e as [| [|k] | | | | | | |]; exact IH. Qed.
+Proof. induction evs as [|e r IH]; auto. rewrite dead_after_cons. destruct e as [| [|k] | | | | | | | |]; exact IH. Qed.
 
 Lemma collect_cons sv d (e : event) r :
   collect sv d (e :: r) = collect sv d [e] ++ collect (srv_after sv [e]) (dead_after d [e]) r.
-Proof. destruct e as [| [|k] | | | | | | |]; reflexivity. Qed.
+Proof. destruct e as [| [|k] | | | | | | | |]; reflexivity. Qed.
 
 Lemma srv_after_cons sv (e : event) r : srv_after sv (e :: r) = srv_after (srv_after sv [e]) r.
 Proof. reflexivity. Qed.
@@ -337,7 +337,7 @@ Lemma step_mid (w : world) e fl : wfl w = Some fl -> is_end e = false -> Inv (ws
 Proof.
   destruct w as [st sv ofl]. cbn [wfl wst wsv]. intros -> NE I.
   assert (NIL : forall l : list (name * inst V), l = l ++ []) by (intro l; rewrite app_nil_r; auto).
-  destruct e as [now|c|n fail full| |o|n|n t|n t fail|]; cbn [step is_end] in *; try discriminate.
+  destruct e as [now|c|n fail full| | |o|n|n t|n t fail|]; cbn [step end_step is_end] in *; try discriminate.
   - apply mid_pack; cbn [fsnap finst collect]; auto using pres_refl.
   - (* a caller's context ends *)
     destruct ((c <=? fjoin fl)%nat && negb (gone fl c)) eqn:G; cbn [fst].
@@ -408,7 +408,7 @@ Lemma collect_assoc : forall (mid : list event) sv d n sv' f' u, assoc n (collec
   exists mid1 mid2 f, mid = mid1 ++ EReq n f u :: mid2 /\ sv' = srv_after sv mid1 /\ f' = f || dead_after d mid1.
 Proof.
   induction mid as [|e r IH]; intros sv d n sv' f' u H; [discriminate|].
-  destruct e as [now|[|c]|n' f0 u'| |o|k|k t|k t fl|]; cbn [collect] in H;
+  destruct e as [now|[|c]|n' f0 u'| | |o|k|k t|k t fl|]; cbn [collect] in H;
     try (destruct (IH _ _ _ _ _ _ H) as (m1 & m2 & f & -> & -> & ->); eexists (_ :: m1), m2, f; repeat split; reflexivity).
   cbn [assoc] in H. destruct (neqb n n') eqn:E.
   - apply neqb_true in E. subst n'. injection H as <- <- <-. exists [], r, f0. repeat split; reflexivity.
@@ -457,7 +457,7 @@ Theorem poll_fresh (w0 : world) now mid :
           (r = Some (v, b) \/ (v = ver0 /\ r = Some (ver0, b0)))).
 Proof.
   intros I F NE wk. destruct (@window w0 now mid I F NE) as (stk & jn & gn & W & Ik & Pk).
-  subst wk. rewrite W. cbn [step].
+  subst wk. rewrite W. cbn [step end_step].
   destruct (finish stk _) as [[s' fx] ok] eqn:FI. cbn [fst snd wst].
   intro R. apply res_in_outs in R. subst ok.
   destruct (@finish_true _ _ _ _ _ _ _ _ I Ik FI) as (Fm & NErr & _ & _).
@@ -506,7 +506,7 @@ Qed.
 Theorem poll_all_or_nothing (w : world) : In (ORes false) (snd (step w EEnd)) ->
   wst (fst (step w EEnd)) = wst w /\ (forall d, ~ In (OFlush d) (snd (step w EEnd))).
 Proof.
-  destruct w as [st sv [fl|]]; cbn [step]; [|intros []].
+  destruct w as [st sv [fl|]]; cbn [step end_step]; [|intros []].
   destruct (finish st fl) as [[s' fx] ok] eqn:FI. cbn [fst snd wst]. intro R.
   apply res_in_outs in R. subst ok. apply finish_false in FI. destruct FI as [-> ->]. split; auto.
   intros d H. cbn [flush_out map app] in H. apply repeat_spec in H. discriminate.
@@ -518,7 +518,7 @@ Lemma collect_skip : forall (mid1 : list event) sv d n rest,
 Proof.
   induction mid1 as [|e r IH]; intros sv d n rest NI; [reflexivity|].
   assert (NI' : forall f' u', ~ In (EReq n f' u') r) by (intros f' u' H; apply (NI f' u'); right; auto).
-  destruct e as [now|[|c]|n' f' u'| |o|k|k t|k t fl|]; cbn [app collect]; try (apply IH; auto).
+  destruct e as [now|[|c]|n' f' u'| | |o|k|k t|k t fl|]; cbn [app collect]; try (apply IH; auto).
   cbn [assoc]. destruct (neqb n n') eqn:E.
   - apply neqb_true in E. subst n'. exfalso. apply (NI f' u'). left; auto.
   - apply IH; auto.
@@ -537,7 +537,7 @@ Lemma collect_dead : forall (evs : list event) sv n sv' f u,
   assoc n (collect sv true evs) = Some (sv', f, u) -> f = true.
 Proof.
   induction evs as [|e r IH]; intros sv n sv' f u H; [discriminate|].
-  destruct e as [now|[|c]|n' f' u'| |o|k|k t|k t fl|]; cbn [collect] in H; try solve [eapply IH; eauto].
+  destruct e as [now|[|c]|n' f' u'| | |o|k|k t|k t fl|]; cbn [collect] in H; try solve [eapply IH; eauto].
   cbn [assoc] in H. destruct (neqb n n'); [|eapply IH; exact H].
   injection H as _ <- _. apply orb_true_r.
 Qed.
@@ -553,7 +553,7 @@ Theorem poll_failure (w0 : world) now mid mid1 n f u mid2 e :
   wst (fst (step wk EEnd)) = wst wk /\ exists k, snd (step wk EEnd) = repeat (ORes false) k.
 Proof.
   intros I F NE En Fl E NI Bad wk. destruct (@window w0 now mid I F NE) as (stk & jn & gn & W & Ik & Pk).
-  subst wk. rewrite W. cbn [step].
+  subst wk. rewrite W. cbn [step end_step].
   rewrite (@finish_fails (wst w0) now stk (collect (wsv w0) false mid) jn gn n e); auto.
   - cbn [fst snd wst flush_out map app]. split; auto. eexists. reflexivity.
   - unfold ans_of. rewrite E, collect_first by auto. unfold answer, get_if_changed.
@@ -571,7 +571,7 @@ Theorem poll_cancelled (w0 : world) now mid mid1 mid2 n e :
   wst (fst (step wk EEnd)) = wst wk /\ exists k, snd (step wk EEnd) = repeat (ORes false) k.
 Proof.
   intros I F NE En Fl E NI wk. destruct (@window w0 now mid I F NE) as (stk & jn & gn & W & Ik & Pk).
-  subst wk. rewrite W. cbn [step].
+  subst wk. rewrite W. cbn [step end_step].
   rewrite (@finish_fails (wst w0) now stk (collect (wsv w0) false mid) jn gn n e); auto.
   - cbn [fst snd wst flush_out map app]. split; auto. eexists. reflexivity.
   - unfold ans_of. rewrite E, collect_skip by auto. cbn [collect].
@@ -612,7 +612,7 @@ Theorem coalesced (st : store) sv fl now :
   step (WD st sv (Some fl)) (ERefresh now) = (WD st sv (Some (FL (fsnap fl) (finst fl) (S (fjoin fl)) (fgone fl))), [])
   /\ exists fx ok, snd (step (WD st sv (Some fl)) EEnd) = flush_out fx ++ repeat (ORes ok) (waiting fl).
 Proof.
-  split; [reflexivity|]. cbn [step]. destruct (finish st fl) as [[s' fx] ok]. exists fx, ok. reflexivity.
+  split; [reflexivity|]. cbn [step end_step]. destruct (finish st fl) as [[s' fx] ok]. exists fx, ok. reflexivity.
 Qed.
 
 (* a caller whose context ends gets its context error at once (if it is still waiting) and
@@ -626,7 +626,7 @@ Theorem cancel_inert (w : world) k :
   | _, _ => False
   end.
 Proof.
-  destruct w as [st sv [fl|]]; cbn [step wst wsv wfl fst snd]; auto.
+  destruct w as [st sv [fl|]]; cbn [step end_step wst wsv wfl fst snd]; auto.
   destruct ((k <=? fjoin fl)%nat && negb (gone fl k)); cbn [wst wsv wfl fst snd fsnap finst fjoin]; auto 6.
 Qed.
 
@@ -638,22 +638,59 @@ Theorem one_verdict (w : world) fl : wfl w = Some fl ->
                 finish (wst w) fl = (wst (fst (step w EEnd)), fx, ok) /\
                 (ok = false -> wst (fst (step w EEnd)) = wst w /\ fx = []).
 Proof.
-  destruct w as [st sv ofl]. cbn [wfl]. intros ->. cbn [step wst].
+  destruct w as [st sv ofl]. cbn [wfl]. intros ->. cbn [step end_step wst].
   destruct (finish st fl) as [[s' fx] ok] eqn:FI. exists fx, ok. cbn [fst snd wst]. split; auto. split; auto.
   intros ->. apply finish_false in FI. exact FI.
 Qed.
+
+(* ---------- the end of a poll whose cache write fails *)
+Lemma end_step_outs (w : world) : exists fx ok k, snd (end_step w) = flush_out fx ++ repeat (ORes ok) k.
+Proof.
+  destruct w as [st sv [fl|]]; cbn [end_step].
+  - destruct (finish st fl) as [[s' fx] ok]. exists fx, ok, (waiting fl). reflexivity.
+  - exists [], true, O. reflexivity.
+Qed.
+
+Lemma endF_fst (w : world) : fst (step w EEndF) = fst (end_step w).
+Proof.
+  destruct w as [st sv ofl]. cbn [step]. destruct (end_step (WD st sv ofl)) as [w' o].
+  destruct (existsb (@is_flush V) o); reflexivity.
+Qed.
+
+Lemma endF_snd (w : world) :
+  (snd (step w EEndF) = snd (end_step w) /\ forall d, ~ In (OFlush d) (snd (end_step w)))
+  \/ (snd (step w EEndF) = map (@failw V) (snd (end_step w)) /\ exists d, In (OFlush d) (snd (end_step w))).
+Proof.
+  destruct w as [st sv ofl]. cbn [step]. destruct (end_step (WD st sv ofl)) as [w' o]. cbn [snd].
+  destruct (existsb (@is_flush V) o) eqn:E; cbn [snd].
+  - right. split; auto. apply existsb_exists in E. destruct E as (x & Hx & Fx). destruct x; try discriminate. eauto.
+  - left. split; auto. intros d Hd. assert (existsb (@is_flush V) o = true); [|congruence].
+    apply existsb_exists. exists (OFlush d). auto.
+Qed.
+
+Lemma end_is_step (w : world) : step w EEnd = end_step w.
+Proof. destruct w; reflexivity. Qed.
 
 (* requests are issued by request events only *)
 Theorem requests_only_from_reqs (w : world) e old r : In (OReq old r) (snd (step w e)) ->
   exists n f u, e = EReq n f u.
 Proof.
-  destruct w as [st sv ofl]. destruct e as [now|c|n f u| |o|k|k t|k t fl|]; cbn [step]; eauto.
+  destruct w as [st sv ofl]. destruct e as [now|c|n f u| | |o|k|k t|k t fl|]; cbn [step end_step]; eauto.
   - destruct ofl; intros [].
   - destruct ofl as [fl|]; [|intros []]. destruct ((c <=? fjoin fl)%nat && negb (gone fl c)); [intros [H|[]]; discriminate|intros []].
   - destruct ofl as [fl|]; [|intros []]. destruct (finish st fl) as [[s' fx] ok]. cbn [snd]. intro H.
     apply in_app_or in H. destruct H as [H|H].
     + unfold flush_out in H. apply in_map_iff in H. destruct H as ([d] & H & _). discriminate.
     + apply repeat_spec in H. discriminate.
+  - fold (end_step (WD st sv ofl)). change (let '(w', o) := end_step (WD st sv ofl) in if existsb (@is_flush V) o then (w', map (@failw V) o) else (w', o)) with (step (WD st sv ofl) EEndF).
+    intro H. destruct (end_step_outs (WD st sv ofl)) as (fx & ok & k0 & E).
+    assert (N : forall o, In o (snd (end_step (WD st sv ofl))) -> forall a b, failw o <> OReq a b /\ o <> OReq a b).
+    { intros o Ho a b. rewrite E in Ho. apply in_app_or in Ho. destruct Ho as [Ho|Ho].
+      - unfold flush_out in Ho. apply in_map_iff in Ho. destruct Ho as ([d] & <- & _). split; discriminate.
+      - apply repeat_spec in Ho. subst o. split; discriminate. }
+    exfalso. destruct (endF_snd (WD st sv ofl)) as [[Q _]|[Q _]]; rewrite Q in H.
+    + apply (proj2 (N _ H old r)). reflexivity.
+    + apply in_map_iff in H. destruct H as (o & Ho & Hin). apply (proj1 (N _ Hin old r)). exact Ho.
   - intros [].
   - destruct (secret st k). intros [H|[]]. discriminate.
   - destruct (read st k t). intros [H|[]]. discriminate.
@@ -667,12 +704,14 @@ Qed.
 Lemma step_Inv (w : world) e : Inv (wst w) -> Inv (wst (fst (step w e))).
 Proof.
   intro I. destruct (is_end e) eqn:E.
-  - destruct e; try discriminate. destruct w as [st sv [fl|]]; cbn [wst] in I; cbn [step fst wst]; auto.
-    pose proof (finish_Inv fl I) as J. destruct (finish st fl) as [[s' fx] ok]. exact J.
+  - assert (Q : Inv (wst (fst (end_step w)))).
+    { destruct w as [st sv [fl|]]; cbn [wst] in I; cbn [end_step fst wst]; auto.
+      pose proof (finish_Inv fl I) as J. destruct (finish st fl) as [[s' fx] ok]. exact J. }
+    destruct e; try discriminate; [rewrite end_is_step|rewrite endF_fst]; exact Q.
   - destruct (wfl w) as [fl|] eqn:F.
     + apply (@step_mid w e fl F E I).
     + destruct w as [st sv ofl]. cbn [wfl] in F. subst ofl. cbn [wst] in I.
-      destruct e as [now|c|n f u| |o|k|k t|k t fl|]; cbn [step fst wst]; auto; try discriminate.
+      destruct e as [now|c|n f u| | |o|k|k t|k t fl|]; cbn [step end_step fst wst]; auto; try discriminate.
       * assert (Q : fst (secret st k) = fst (secret_locked st k)).
         { unfold secret. destruct (secret_locked st k) as [s' ok]. destruct ok; [|destruct (allow st)]; reflexivity. }
         destruct (secret st k) as [st' h]. cbn [fst] in Q. subst st'. cbn [fst wst]. apply secret_locked_Inv; auto.
@@ -698,11 +737,11 @@ Qed.
 Lemma cache_after_res c ok k : cache_after c (repeat (@ORes V ok) k) = c.
 Proof. unfold cache_after. induction k; cbn [repeat fold_left]; auto. Qed.
 
-Lemma cache_step (w : world) e c : Inv (wst w) -> (forall n, doc_vv c n = vv (wst w) n) ->
+Lemma cache_step (w : world) e c : e <> EEndF -> Inv (wst w) -> (forall n, doc_vv c n = vv (wst w) n) ->
   forall n, doc_vv (cache_after c (snd (step w e))) n = vv (wst (fst (step w e))) n.
 Proof.
-  intros I C n. destruct w as [st sv ofl]. cbn [wst] in *.
-  destruct e as [now|cc|k f u| |o|k|k t|k t fl|]; cbn [step].
+  intros NF I C n. destruct w as [st sv ofl]. cbn [wst] in *.
+  destruct e as [now|cc|k f u| | |o|k|k t|k t fl|]; cbn [step end_step].
   - destruct ofl; cbn [fst snd wst cache_after fold_left]; auto.
   - destruct ofl as [fl|]; [|cbn [fst snd wst cache_after fold_left]; auto].
     destruct ((cc <=? fjoin fl)%nat && negb (gone fl cc)); cbn [fst snd wst cache_after fold_left]; auto.
@@ -714,6 +753,7 @@ Proof.
       * unfold cache_after. cbn [fold_left]. fold (cache_after (doc (fold_left (@apply1 V) r (apply1 st x))) (repeat (@ORes V true) (waiting fl))).
         rewrite cache_after_res. apply doc_vv_doc.
     + cbn [fst snd wst flush_out map app]. rewrite cache_after_res. auto.
+  - congruence.
   - cbn [fst snd wst cache_after fold_left]; auto.
   - assert (Q : fst (secret st k) = fst (secret_locked st k)).
     { unfold secret. destruct (secret_locked st k) as [s' ok]. destruct ok; [|destruct (allow st)]; reflexivity. }
@@ -731,14 +771,104 @@ Proof.
   - cbn [shutdown_flush flush_out map fst snd wst cache_after fold_left]. apply doc_vv_doc.
 Qed.
 
-Theorem cache_tracks : forall evs (w : world) c, Inv (wst w) -> (forall n, doc_vv c n = vv (wst w) n) ->
+Theorem cache_tracks : forall evs (w : world) c, (forall e, In e evs -> e <> EEndF) ->
+  Inv (wst w) -> (forall n, doc_vv c n = vv (wst w) n) ->
   forall n, doc_vv (cache_after c (concat (snd (run w evs)))) n = vv (wst (fst (run w evs))) n.
 Proof.
-  induction evs as [|e r IH]; intros w c I C n; [cbn; auto|].
-  cbn [run]. pose proof (@cache_step w e c I C) as CS. pose proof (@step_Inv w e I) as SI.
+  induction evs as [|e r IH]; intros w c NF I C n; [cbn; auto|].
+  cbn [run]. pose proof (@cache_step w e c (NF e (or_introl eq_refl)) I C) as CS. pose proof (@step_Inv w e I) as SI.
   destruct (step w e) as [w1 o]. cbn [fst snd] in *.
-  specialize (IH w1 (cache_after c o) SI CS n). destruct (run w1 r) as [w2 os]. cbn [fst snd concat] in *.
+  specialize (IH w1 (cache_after c o) (fun x Hx => NF x (or_intror Hx)) SI CS n). destruct (run w1 r) as [w2 os]. cbn [fst snd concat] in *.
   unfold cache_after in *. rewrite fold_left_app. exact IH.
+Qed.
+
+(* every Cache.Write carries the document of the store state AT that write: writes happen inside
+   the locked step that changed the state (store.go:403, 631, 580), so writes and installs are
+   totally ordered and the last write of any history describes the state at that write *)
+Lemma doc_secret_locked (s : store) k : doc (fst (secret_locked s k)) = doc s.
+Proof. unfold secret_locked. destruct (known s k); [destruct (has_handle s k)|]; reflexivity. Qed.
+
+Lemma end_step_docs (w : world) d : In (OFlush d) (snd (end_step w)) -> d = doc (wst (fst (end_step w))).
+Proof.
+  destruct w as [st sv ofl]. cbn [end_step].
+  destruct ofl as [fl|]; [|intros []]. unfold finish.
+  destruct (poll (fsnap fl) (ans_of (finst fl))) as [ups|].
+  + unfold apply_updates. destruct ups as [|x r]; cbn [fst snd wst flush_out map app].
+    * intro H. apply repeat_spec in H. discriminate.
+    * intros [H|H]; [injection H as <-; reflexivity|apply repeat_spec in H; discriminate].
+  + cbn [fst snd wst flush_out map app]. intro H. apply repeat_spec in H. discriminate.
+Qed.
+
+Lemma failw_not_flush (o : out V) d : failw o <> OFlush d.
+Proof. destruct o; discriminate. Qed.
+
+Theorem writes_are_state_docs (w : world) e d : In (OFlush d) (snd (step w e)) ->
+  d = doc (wst (fst (step w e))).
+Proof.
+  destruct e as [now|c|n f u| | |o|k|k t|k t fl|];
+    try (rewrite end_is_step; apply end_step_docs);
+    try (intro H; exfalso; destruct (endF_snd w) as [[Q N]|[Q _]]; rewrite Q in H;
+         [exact (N d H)|apply in_map_iff in H; destruct H as (x & Hx & _); exact (failw_not_flush _ Hx)]).
+  all: destruct w as [st sv ofl]; cbn [step end_step].
+  - destruct ofl; intros [].
+  - destruct ofl as [fl|]; [|intros []]. destruct ((c <=? fjoin fl)%nat && negb (gone fl c)); [intros [H|[]]; discriminate|intros []].
+  - destruct ofl; [intros [H|[]]; discriminate|intros []].
+  - intros [].
+  - destruct (secret st k). intros [H|[]]. discriminate.
+  - destruct (read st k t). intros [H|[]]. discriminate.
+  - destruct (known st k); [intros [H|[]]; discriminate|]. destruct (negb (allow st)); [intros [H|[]]; discriminate|].
+    destruct fl; [intros [H|[]]; discriminate|]. destruct (find k sv) as [[v b]|]; [|intros [H|[]]; discriminate].
+    cbn [lookup_install flush_out map app fst snd wst]. intros [H|[H|[]]]; [|discriminate].
+    injection H as <-. rewrite doc_secret_locked. reflexivity.
+  - cbn [shutdown_flush flush_out map fst snd wst]. intros [H|[]]. injection H as <-. reflexivity.
+Qed.
+
+Lemma end_flush_ok (w : world) d b : In (OFlush d) (snd (end_step w)) -> In (ORes b) (snd (end_step w)) -> b = true.
+Proof.
+  destruct w as [st sv [fl|]]; cbn [end_step]; [|intros []].
+  destruct (finish st fl) as [[s' fx] ok] eqn:FI. cbn [snd]. intros HF HR.
+  apply res_in_outs in HR. subst b. destruct ok; auto.
+  apply finish_false in FI. destruct FI as [_ ->]. cbn [flush_out map app] in HF.
+  apply repeat_spec in HF. discriminate.
+Qed.
+
+(* WHAT A NON-NIL Refresh RESULT MEANS when the cache write of applyUpdates may fail: the store
+   component is exactly that of the poll whose write succeeds (so all the statements about the
+   store after a poll apply to it); either no write was attempted and the outputs are those of
+   the ordinary end of poll (an error then means: poll failed, nothing applied), or the poll
+   SUCCEEDED and installed everything, its write (the document of the new state) failed, and every
+   caller still waiting is given an error *)
+Theorem write_failure_meaning (w : world) :
+  fst (step w EEndF) = fst (step w EEnd) /\
+  ((snd (step w EEndF) = snd (step w EEnd) /\ forall d, ~ In (OFlush d) (snd (step w EEnd)))
+   \/ (snd (step w EEndF) = map (@failw V) (snd (step w EEnd)) /\
+       exists d, In (OFlush d) (snd (step w EEnd)) /\ d = doc (wst (fst (step w EEnd))) /\
+                 forall b, In (ORes b) (snd (step w EEnd)) -> b = true)).
+Proof.
+  rewrite end_is_step. split; [apply endF_fst|].
+  destruct (endF_snd w) as [[Q N]|[Q (d & Hd)]]; [left; auto|right]. split; auto.
+  exists d. split; auto. split; [apply end_step_docs; auto|]. intros b Hb. eapply end_flush_ok; eauto.
+Qed.
+
+(* a failed write never reaches the cache and the attempted document was that of the state *)
+Theorem failed_write_doc (w : world) d : In (OFlushF d) (snd (step w EEndF)) -> d = doc (wst (fst (step w EEndF))).
+Proof.
+  intro H. rewrite endF_fst. destruct (endF_snd w) as [[Q N]|[Q _]]; rewrite Q in H.
+  - exfalso. destruct (end_step_outs w) as (fx & ok & k & E). rewrite E in H. apply in_app_or in H. destruct H as [H|H].
+    + unfold flush_out in H. apply in_map_iff in H. destruct H as ([x] & Hx & _). discriminate.
+    + apply repeat_spec in H. discriminate.
+  - apply in_map_iff in H. destruct H as (x & Hx & Hin).
+    destruct (end_step_outs w) as (fx & ok & k & E). pose proof Hin as Hin2. rewrite E in Hin2.
+    apply in_app_or in Hin2. destruct Hin2 as [H2|H2].
+    + unfold flush_out in H2. apply in_map_iff in H2. destruct H2 as ([d0] & <- & _).
+      cbn [failw] in Hx. injection Hx as ->. apply end_step_docs. exact Hin.
+    + apply repeat_spec in H2. subst x. discriminate.
+Qed.
+
+Corollary writes_in_history (w : world) evs1 e d : In (OFlush d) (snd (step (run_w w evs1) e)) ->
+  d = doc (wst (run_w w (evs1 ++ [e]))).
+Proof.
+  intro H. unfold run_w. rewrite fold_left_app. cbn [fold_left]. apply writes_are_state_docs. exact H.
 Qed.
 
 (* the flush at the end of a successful poll: the whole new state, or nothing when nothing changed *)
@@ -746,7 +876,7 @@ Theorem poll_flush (w : world) : In (ORes true) (snd (step w EEnd)) ->
   (exists k, snd (step w EEnd) = OFlush (doc (wst (fst (step w EEnd)))) :: repeat (ORes true) k)
   \/ (wst (fst (step w EEnd)) = wst w /\ forall d, ~ In (OFlush d) (snd (step w EEnd))).
 Proof.
-  destruct w as [st sv [fl|]]; cbn [step]; [|intros []].
+  destruct w as [st sv [fl|]]; cbn [step end_step]; [|intros []].
   unfold finish. destruct (poll (fsnap fl) (ans_of (finst fl))) as [ups|].
   - unfold apply_updates. destruct ups as [|x r]; cbn [fst snd wst flush_out map app]; intros _.
     + right. split; auto. intros d H. apply repeat_spec in H. discriminate.
@@ -761,7 +891,7 @@ Lemma run_reqs : forall order (st : store) sv fl, lead_dead fl = false ->
 Proof.
   induction order as [|k r IH]; intros st sv fl D.
   - cbn [map run_w fold_left]. rewrite app_nil_r. destruct fl; reflexivity.
-  - cbn [map]. change (run_w ?w (?e :: ?l)) with (run_w (fst (step w e)) l). cbn [step fst].
+  - cbn [map]. change (run_w ?w (?e :: ?l)) with (run_w (fst (step w e)) l). cbn [step end_step fst].
     rewrite IH by exact D. cbn [fsnap finst fjoin fgone]. rewrite D, <- app_assoc. reflexivity.
 Qed.
 
@@ -783,8 +913,8 @@ Theorem poll_converges (s : store) now sv order :
   forall n x, vv (wst (fst (step wk EEnd))) n = Some x -> find n sv = Some x.
 Proof.
   intros I Cov Srv Faith wk. subst wk.
-  change (run_w ?w (?e :: ?l)) with (run_w (fst (step w e)) l). cbn [step fst]. rewrite run_reqs by reflexivity.
-  cbn [fsnap finst fjoin fgone app step].
+  change (run_w ?w (?e :: ?l)) with (run_w (fst (step w e)) l). cbn [step end_step fst]. rewrite run_reqs by reflexivity.
+  cbn [fsnap finst fjoin fgone app step end_step].
   match goal with |- context [finish _ (FL _ ?i _ _)] => set (insts := i) end.
   assert (A : forall n e, entry s n = Some e -> flagged s now n = false ->
                           ans_of insts n (ver e) = get_if_changed sv n (ver e) false).
@@ -860,4 +990,73 @@ Proof.
   destruct H as [P T]. apply period_ok_iff in P. destruct P as (r & B & E). exists r. split; auto.
   split; [apply jitter_bounds; auto|]. intros k Hk. unfold tick. rewrite <- E.
   destruct k as [|k]; cbn [nth]; [lia|]. cbn [length] in Hk. rewrite (ticks_from_nth _ _ _ T) by lia. lia.
+Qed.
+
+(* ---------- polls that take time *)
+Lemma next_start_regular (t0 p j d : Z) : (0 < p)%Z -> (0 <= d < p)%Z ->
+  next_start t0 p (t0 + j * p) d = (t0 + (j + 1) * p)%Z.
+Proof.
+  intros Hp Hd. unfold next_start. replace (t0 + j * p - t0)%Z with (j * p)%Z by lia.
+  rewrite Z.div_mul by lia. destruct (t0 + (j + 1) * p <=? t0 + j * p + d)%Z eqn:E; auto.
+  apply Z.leb_le in E. lia.
+Qed.
+
+Lemma starts_from_regular (t0 p : Z) : (0 < p)%Z -> forall ds j,
+  (forall d, In d ds -> (0 <= d < p)%Z) ->
+  forall k, (k <= length ds)%nat -> nth k (starts_from t0 p (t0 + j * p) ds) 0%Z = (t0 + (j + Z.of_nat k) * p)%Z.
+Proof.
+  intros Hp. induction ds as [|d r IH]; intros j B k Hk.
+  - cbn [length] in Hk. assert (k = O) by lia. subst. cbn. f_equal. lia.
+  - cbn [starts_from]. destruct k as [|k]; cbn [nth]; [f_equal; lia|].
+    rewrite next_start_regular by (auto; apply B; left; auto).
+    rewrite IH; [f_equal; lia| |cbn [length] in Hk; lia]. intros d' Hd'. apply B. right. auto.
+Qed.
+
+(* as long as every poll is shorter than the period, the k-th poll starts at t0 + k*period exactly *)
+Lemma starts_regular (t0 p : Z) ds : (0 < p)%Z -> (forall d, In d ds -> (0 <= d < p)%Z) ->
+  forall k, (k <= length ds)%nat -> nth k (starts t0 p ds) 0%Z = tick t0 p k.
+Proof.
+  intros Hp B k Hk. unfold starts, tick. replace (t0 + p)%Z with (t0 + 1 * p)%Z by lia.
+  rewrite starts_from_regular by auto. f_equal. lia.
+Qed.
+
+Lemma starts_from_length (t0 p : Z) ds : forall s, length (starts_from t0 p s ds) = S (length ds).
+Proof. induction ds as [|d r IH]; intro s; cbn [starts_from length]; auto. Qed.
+
+Lemma follows_starts (t0 p : Z) : forall l s e, follows t0 p s e l = true ->
+  s :: map fst l = starts_from t0 p s (durs_init s e l).
+Proof.
+  induction l as [|[s' e'] r IH]; intros s e H; [reflexivity|].
+  cbn [follows] in H. apply andb_prop in H. destruct H as [H F]. apply andb_prop in H. destruct H as [E _].
+  apply Z.eqb_eq in E. cbn [map fst durs_init starts_from]. f_equal. rewrite <- E. apply IH. exact F.
+Qed.
+
+(* the monitor on (start, end) instants is sound: the period is one the loop can draw, the start
+   instants are exactly those of a time.Ticker loop with the observed durations; and while every
+   poll is shorter than the period they lie on the grid t0 + k*period, one period apart *)
+Lemma cadence2_sound (i t0 : Z) l : cadence2_ok i t0 l = true ->
+  exists r, (0 <= r < jitter_bound i)%Z /\ (9 * i <= 10 * period i r <= 11 * i)%Z /\
+    match l with
+    | [] => False
+    | (s1, e1) :: rest =>
+      map fst l = starts t0 (period i r) (durs_init s1 e1 rest) /\
+      ((forall d, In d (durs_init s1 e1 rest) -> (0 <= d < period i r)%Z) ->
+       forall k, (k < length l)%nat -> nth k (map fst l) 0%Z = tick t0 (period i r) k)
+    end.
+Proof.
+  unfold cadence2_ok. destruct l as [|[s1 e1] rest]; [discriminate|]. intro H.
+  apply andb_prop in H. destruct H as [H F]. apply andb_prop in H. destruct H as [P _].
+  apply period_ok_iff in P. destruct P as (r & B & E). exists r. split; auto. split; [apply jitter_bounds; auto|].
+  rewrite E in F. apply follows_starts in F.
+  assert (S1 : s1 = (t0 + period i r)%Z) by lia.
+  assert (M : map fst ((s1, e1) :: rest) = starts t0 (period i r) (durs_init s1 e1 rest)).
+  { cbn [map fst]. unfold starts. rewrite <- S1. exact F. }
+  split; auto. intros Bd k Hk. rewrite M. apply starts_regular; auto.
+  - pose proof (@jitter_bounds i r B). unfold jitter_bound in B.
+    assert (0 < i)%Z. { destruct (Z_lt_le_dec 0 i); auto. exfalso.
+      assert (2 * i / 10 <= 0)%Z by (apply Z.div_le_upper_bound; lia). lia. }
+    lia.
+  - assert (L : length (starts t0 (period i r) (durs_init s1 e1 rest)) = S (length (durs_init s1 e1 rest))).
+    { unfold starts. apply starts_from_length. }
+    rewrite <- M in L. rewrite map_length in L. lia.
 Qed.
